@@ -350,6 +350,9 @@ type c13Witness struct {
 // witnesses of the Lean theorems that state a defect (`*_false`), replayed on the real importer
 var c13Witnesses = []c13Witness{
 	{"C13_allOf_enc_false", "allOf-member-without-constraints", `{"allOf":[true,{"minimum":3},{"maximum":5}]}`, `4`, "true"},
+	{"C13_type_step_false_literal", "number-literal-form", `{"type":"integer"}`, `1.0`, "true"},
+	{"C13_type_step_false_both", "type-integer-and-number", `{"type":["integer","number"]}`, `1.5`, "true"},
+	{"C13_prefixItems_presence_false", "prefixItems-requires-presence", `{"prefixItems":[{"type":"string"}]}`, `[]`, "true"},
 }
 
 // ---- shapes ------------------------------------------------------------------------------------
